@@ -200,6 +200,11 @@ def aVerdict (toks : List String) : String :=
         let postA := loadAcl post
         if (postA.find (b "default")).isNone then "rej:default-deleted"
         else if (cmd.drop 2).any (fun nm => nm != b "default" && (postA.find nm).isSome) then "rej:user-not-deleted" else "adm"
+      else if implAllowed && !Spec.exempt ml.m.comm && a.requirePass && (a.order.idxOf? conn.user).isNone then
+        -- the connection's user object is no longer the table's: later decisions must follow the table
+        match a.find u.name with
+        | none => "rej:deleted-user-acted"
+        | some t => if Spec.policyAllowed globMatch conn.authenticated (a.get t) ml.m.comm ml.m.cats (fullFootprint ml) then "adm" else "rej:stale-rules"
       else "na"
     pure s!"{seq} {mv} ## acl={c06} auth={c11} cls={classifyAcl conn.authenticated u ml} shape={String.fromUTF8! (ByteArray.mk n.toArray)}"
   match p.run toks with
